@@ -177,11 +177,18 @@ def getAttrIdx (e : Elem) (ctx : Ctx) (qname : String) : Option Nat :=
     | some p => some (resolvePrefix p (e.scope :: ctx))
   e.attrs.findIdx? fun a => attrMatch a (e.scope :: ctx) (some sp.2) ns
 
+/-- The attribute `Element.set(name, value)` assigns to: an unqualified name names an unqualified
+attribute only (`type` is not `xsi:type`); a prefixed one is looked up like `getAttribute`. -/
+def setAttrIdx (e : Elem) (ctx : Ctx) (qname : String) : Option Nat :=
+  match (splitPrefix qname).1 with
+  | none => e.attrs.findIdx? fun a => a.pfx.isNone && a.name == (splitPrefix qname).2
+  | some _ => getAttrIdx e ctx qname
+
 /-- `Element.set(name, value)` -/
 def Forest.setAttr (f : Forest) (i : Nat) (qname value : String) : Forest :=
   let ctx := f.ctxOf i
   f.update i fun e =>
-    match getAttrIdx e ctx qname with
+    match setAttrIdx e ctx qname with
     | some k => e.setAttrs (e.attrs.set k { (e.attrs.getD k ⟨none, "", ""⟩) with value := value })
     | none => let sp := splitPrefix qname; e.setAttrs (e.attrs ++ [⟨sp.1, sp.2, value⟩])
 
